@@ -164,10 +164,14 @@ def register(lib):
         return ex
     E['concurrent.futures.ThreadPoolExecutor'] = tpe
     M[('$executor', '__enter__')] = lambda I, ex: ex
-    M[('$executor', '__exit__')] = lambda I, ex, exc: None
+    # leaving the with-block shuts the pool down for good: a later submit raises RuntimeError (as in CPython)
+    M[('$executor', '__exit__')] = lambda I, ex, exc: ex.fields.__setitem__('shutdown', True)
+    M[('$executor', 'shutdown')] = lambda I, ex, *a, **k: ex.fields.__setitem__('shutdown', True)
 
     def ex_submit(I, ex, fn, *args, **kwargs):
         c = cur()
+        if ex.fields.get('shutdown'):
+            raise PyRaise('RuntimeError', 'cannot schedule new futures after shutdown')
         fut = SObj(None, clsname='$future')
         fut.fields['exc'] = None
         fut.fields['value'] = None
@@ -210,6 +214,9 @@ def register(lib):
     def q_put(I, q, item, *a, **k):
         c = cur()
         from . import loops
+        if loops.active_vars():
+            # ownership: what an iteration hands to the consumer must not be an object the other iterations write as well
+            c.require(mk_bool(loops.shared_written_base(untag(item)) is None), 'put.item_is_not_a_buffer_reused_by_other_iterations', kind='loop')
         ev = dict(item=untag(item), loopvars=[(v.z, v.n) for v in loops.active_vars()], seq=len(c.ghost.setdefault('puts', [])))
         c.ghost['puts'].append(ev)
         hook = q.fields.get('on_put')
